@@ -84,6 +84,28 @@ def transpose(layout, perm):
   return [layout[p] for p in perm]
 
 
+def moveaxis(layout, source, destination):
+  n = len(layout)
+  source, destination = int(source), int(destination)
+  if source < 0:
+    source += n
+  if destination < 0:
+    destination += n
+  if not (0 <= source < n and 0 <= destination < n):
+    raise LayoutError(f'bad moveaxis {source}->{destination} for rank {n}')
+  order = [i for i in range(n) if i != source]
+  order.insert(destination, source)
+  return [layout[i] for i in order]
+
+
+def swapaxes(layout, a, b):
+  n = len(layout)
+  a, b = int(a) % n, int(b) % n
+  out = list(layout)
+  out[a], out[b] = out[b], out[a]
+  return out
+
+
 def expand_dims(layout, axis):
   axis = int(axis)
   if axis < 0:
